@@ -110,3 +110,62 @@ pub fn strip_digits(s: &str) -> String {
     }
     out
 }
+
+// ---------------------------------------------------------------------------------------------
+// corpus-grid helpers shared by the API family
+
+use std::collections::HashMap;
+use std::sync::{Arc, Mutex, OnceLock};
+
+use crate::engine::{GenCtx, Tier};
+use crate::gen::conf::ConfSpace;
+use crate::gen::grid::{grid_cell, grid_size, select_cells, Cell};
+
+static CELLS: OnceLock<Mutex<HashMap<String, Arc<Vec<usize>>>>> = OnceLock::new();
+
+fn env_usize(name: &str) -> Option<usize> {
+    std::env::var(name).ok().and_then(|v| v.parse().ok())
+}
+
+/// Number of grid cells a tier visits (`VP_GRID_N` overrides, `VP_GRID_ALL=1` sweeps the grid).
+pub fn grid_len(g: &GenCtx, quick: usize, thorough: usize) -> usize {
+    let size = grid_size(&g.corpus);
+    if std::env::var("VP_GRID_ALL").is_ok() {
+        return size;
+    }
+    let n = env_usize("VP_GRID_N").unwrap_or(match g.tier {
+        Tier::Quick => quick,
+        Tier::Thorough => thorough,
+    });
+    n.min(size)
+}
+
+/// The `i`-th cell of this run's selection.
+pub fn grid_pick(g: &GenCtx, prop: &str, n: usize, i: usize, space: &ConfSpace, newlines: bool) -> Cell {
+    let size = grid_size(&g.corpus);
+    let idx = if n >= size {
+        i
+    } else {
+        let key = format!("{prop}/{}/{}/{n}", g.seed, g.tier.name());
+        let m = CELLS.get_or_init(|| Mutex::new(HashMap::new()));
+        let cells = {
+            let mut m = m.lock().unwrap();
+            m.entry(key)
+                .or_insert_with(|| Arc::new(select_cells(g.seed, &format!("{prop}/{}", g.tier.name()), n, size)))
+                .clone()
+        };
+        cells[i]
+    };
+    grid_cell(&g.corpus, idx, space, newlines)
+}
+
+pub fn cell_case(cell: &Cell) -> Value {
+    serde_json::json!({
+        "src": cell.src.text,
+        "opts": opts_to(&cell.opts),
+        "origin": cell.src.origin,
+        "edition": cell.src.edition,
+        "layout": cell.src.layout,
+        "cell": cell.cell,
+    })
+}
